@@ -24,6 +24,9 @@ type fakeLN struct {
 	connected map[string]bool
 	sent      []sentPS
 	failSend  bool
+	// onSend runs (outside the lock) after a message was handed to the transport: the harness uses it to let
+	// a peer's own poll arrive while the poller is still in the middle of its round
+	onSend func(to string, typ messages.MessageType)
 }
 
 type sentPS struct {
@@ -34,10 +37,14 @@ type sentPS struct {
 
 func (f *fakeLN) SendCustomMessage(_ context.Context, to peersync.PeerID, msgType messages.MessageType, payload []byte) error {
 	f.mu.Lock()
-	defer f.mu.Unlock()
 	f.sent = append(f.sent, sentPS{to.String(), msgType, append([]byte{}, payload...)})
-	if f.failSend {
+	fail, cb := f.failSend, f.onSend
+	f.mu.Unlock()
+	if fail {
 		return fmt.Errorf("peer offline")
+	}
+	if cb != nil {
+		cb(to.String(), msgType)
 	}
 	return nil
 }
@@ -287,11 +294,38 @@ func propC28PeerSyncStateMachine(t testing.TB) {
 			case "pollAll", "forcePollAll":
 				force := op == "forcePollAll"
 				sentBefore := len(ln.sent)
+				// a known peer's poll may arrive while the poll round is under way (the handler runs on
+				// its own goroutine in the daemon): its capability must not be lost
+				if rapid.IntRange(0, 2).Draw(t, "pollArrivesDuringRound") == 0 {
+					from := rapid.SampledFrom(ids[:3]).Draw(t, "arrivingFrom")
+					if mp := model[from]; mp != nil {
+						ver := uint64(7)
+						if mp.snap != nil && mp.snap.Version > ver {
+							ver = mp.snap.Version
+						}
+						fresh := &peersync.PeerCapabilitySnapshot{Version: ver, Assets: []string{"BTC"}, PeerAllowed: true,
+							BTCSwapInPremiumRatePPM: int64(rapid.IntRange(1, 900_000).Draw(t, "arrivingRate"))}
+						fired := false
+						ln.onSend = func(string, messages.MessageType) {
+							if fired {
+								return
+							}
+							fired = true
+							fp, _ := peersync.NewPeerID(from)
+							payload, _ := json.Marshal(fresh)
+							ps.VerifProcessMessage(ctx, peersync.CustomMessage{From: fp, Type: messages.MESSAGETYPE_POLL, Payload: payload})
+							mp.snap, mp.lastSeen, mp.seen = fresh, clock, true
+							classes["poll-arrived-during-round"] = true
+							oplog = append(oplog, fmt.Sprintf("poll-arrives-during-round(%s,rate=%d)", from[:6], fresh.BTCSwapInPremiumRatePPM))
+						}
+					}
+				}
 				if force {
 					ps.ForcePollAllPeers(ctx)
 				} else {
 					ps.PollAllPeers(ctx)
 				}
+				ln.onSend = nil
 				reqTo := map[string]int{}
 				for _, s := range ln.sent[sentBefore:] {
 					if s.to == ids[3] {
